@@ -3,7 +3,8 @@ use crate::decoder::{Plane, Srt, plane::from_downlink::UpdateFromDownlink};
 impl UpdateFromDownlink<Srt> for Plane {
     fn update_from_downlink(&mut self, dl: &Srt) {
         if dl.icao.is_some() {
-            if dl.df == Some(4) && dl.altitude.is_some() {
+            if dl.df == Some(4) {
+                // a reply without a usable altitude code blanks the altitude, as Plane::update does
                 self.altitude = dl.altitude;
                 self.altitude_source = ' ';
             }
